@@ -45,6 +45,7 @@ type PathOutcome struct {
 	Msg   string
 	Decs  int
 	Steps int
+	Covers []string // RunConcrete: cover labels reached
 }
 
 // RunResult aggregates an exploration.
@@ -571,6 +572,9 @@ func (p *Pool) RunConcrete(prog *Program, cfg RunConfig, input Model) (labels []
 	}()
 	for _, v := range ps.violations {
 		labels = append(labels, v.Label)
+	}
+	for l := range ps.covers {
+		outcome.Covers = append(outcome.Covers, l)
 	}
 	in.solver.Pop()
 	in.rollback(mark)
